@@ -36,6 +36,11 @@ import tokenize
 from collections import OrderedDict
 
 sys.path.insert(0, os.path.dirname(os.path.dirname(os.path.abspath(__file__))))
+# the repository's pinned third-party versions (asttokens 3.x, astroid) live in /venv; the overlay
+# venv may shadow some of them with other versions, so /venv's site-packages go first
+_PROD_SITE = "/venv/lib/python3.12/site-packages"
+if os.path.isdir(os.path.join(_PROD_SITE, "asttokens")) and sys.path[0] != _PROD_SITE:
+  sys.path.insert(0, _PROD_SITE)
 from vlib import common
 from vlib.rtc import eng, fn
 
@@ -284,8 +289,18 @@ def ens_meaning(a, r):
 
 _eng = {}
 
+def _copy_of(e):
+  """Fresh real Engine holding the same document (load_meta_tables/load_table + Calculate)."""
+  import engine as _engine, useractions
+  f = _engine.Engine()
+  for t in f.load_meta_tables(e.fetch_table('_grist_Tables'), e.fetch_table('_grist_Tables_column')):
+    f.load_table(e.fetch_table(t, formulas=True))
+  f.apply_user_actions([useractions.from_repr(['Calculate'])])
+  return f
+
+
 def engine_doc():
-  if "e" not in _eng:
+  if "pristine" not in _eng:
     from vlib.rtc import gen
     e = eng.new_engine()
     c = gen._col
@@ -296,7 +311,9 @@ def engine_doc():
     eng.apply(e, [["BulkAddRecord", "T", [r["id"] for r in ROWS],
                    {"a": [r["a"] for r in ROWS], "s": [r["s"] for r in ROWS]}],
                   ["BulkAddRecord", "U", [1, 2], {"n": [4, 5], "r": [1, 2]}]])
-    _eng["e"] = e
+    _eng["pristine"] = e
+  if "e" not in _eng:          # after a failed bundle the working engine is replaced by a new copy
+    _eng["e"] = _copy_of(_eng["pristine"])
   return _eng["e"]
 
 
@@ -559,6 +576,7 @@ def classify(a, clause, detail):
   d = str(detail)
   if "raised" in d:
     exc = d.split("raised", 1)[1].strip().split(":")[0]
+    if exc in ("IndentationError", "TabError"): exc = "SyntaxError"     # same family
     return "%s|raised %s" % (text_category(a["text"]), exc)
   return "%s|%s" % (text_category(a["text"]), "other-columns" if "other columns" in d else "value")
 
